@@ -11,9 +11,6 @@ inline(SS + 'const_int', SS + 'const_double', SS + 'const_string', SS + 'const_b
        'giscanner.sourcescanner.SourceType.__init__', 'giscanner.sourcescanner.SourceSymbol.__init__')
 
 # --- assumed contracts of the surrounding transformer functions (not verified here) ---
-contract(T + '_strip_symbol', params={'self': 'Transformer', 'symbol': 'SourceSymbol'}, returns='str',
-         pure_keys=['symbol.ident'], raises={'TransformerException': 'maybe'}, trusted=True,
-         note='prefix stripping is property C04; here only: a string that is a function of the identifier')
 contract(T + '_create_type_from_base',
          params={'self': 'Transformer', 'source_type': 'SourceType', 'is_parameter': 'bool', 'is_return': 'bool'},
          returns='Type', fresh_result=True, trusted=True,
